@@ -195,6 +195,8 @@ WriteEvt(p, k, t) ==
   IF p.mode = OPER /\ ~p.tc[k].off
   THEN W([p1 EXCEPT !.ta[k].evT = IF p.ta[k].type >= 254 THEN t ELSE @, !.td[k].evRem = IF p.ta[k].type >= 254 /\ p.ta[k].valid THEN t ELSE @,
                     !.td[k].inhRem = IF @ > 0 THEN p.ta[k].inhT ELSE 0], <<>>, <<>>)
+  \* a disabled TPDO: the write stops the event countdown that its (re)initialisation had started, nothing is re-armed
+  ELSE IF p.mode = OPER THEN W([p1 EXCEPT !.td[k].evRem = 0], <<>>, <<>>)
   ELSE W(p1, <<>>, <<>>)
 \* 1005h / 1006h
 SyncIdBytes(p) == <<p.sid % 256, p.sid \div 256, 0, IF p.sgen THEN 64 ELSE 0>>
